@@ -402,51 +402,49 @@ def splitName (name : List Char) : List Char × List Char :=
 /-- a field is flat: no attribute/index part, no nested replacement field -/
 def Field.flat (f : Field) : Bool := (splitName f.name).2.isEmpty && !f.needsExpanding
 
+/-- `do_conversion`: `!r`, `!s`, `!a` make a `str`; anything else is an error -/
+def convert (f : Field) (v : Val) : Except FErr Val :=
+  match f.conversion with
+  | none => .ok v
+  | some c => if c = 'r' ∨ c = 's' ∨ c = 'a' then .ok .str else .error .unknownConversion
+
+/-- the look-up of `get_field_object`: `args[index]` or `kwargs[first]` -/
+def lookupObj (a : Args) (first : List Char) : Option Nat → Except FErr Val
+  | none =>
+    match a.kw.find? (·.1 == first) with
+    | some (_, v) => .ok v
+    | none => .error .keyError
+  | some i =>
+    match a.pos[i]? with
+    | some v => .ok v
+    | none => .error .indexError
+
 /-- `output_markup` for one field: the new auto-numbering state -/
 def renderField (a : Args) (an : AutoNumber) (f : Field) : Except FErr AutoNumber :=
-  let (first, rest) := splitName f.name
-  match firstIndex first with
+  match firstIndex (splitName f.name).1 with
   | .error e => .error e
   | .ok idx =>
-    let empty := first.isEmpty
+    let empty := (splitName f.name).1.isEmpty
     let numeric := empty || idx.isSome
     -- the auto-numbering state
     let st := if an.state = .init ∧ numeric then (if empty then ANState.auto else ANState.manual) else an.state
     if numeric ∧ st = .manual ∧ empty then .error .manualToAuto
     else if numeric ∧ st = .auto ∧ !empty then .error .autoToManual
     else
-      let (index, an') : Option Nat × AutoNumber :=
-        if empty then (some an.fieldNumber, { state := st, fieldNumber := an.fieldNumber + 1 })
-        else (idx, { state := st, fieldNumber := an.fieldNumber })
       -- look the object up
-      let obj : Except FErr Val :=
-        match index with
-        | none =>
-          match a.kw.find? (·.1 == first) with
-          | some (_, v) => .ok v
-          | none => .error .keyError
-        | some i =>
-          match a.pos[i]? with
-          | some v => .ok v
-          | none => .error .indexError
-      match obj with
+      match lookupObj a (splitName f.name).1 (if empty then some an.fieldNumber else idx) with
       | .error e => .error e
       | .ok v =>
-        if !rest.isEmpty then .error .outside
+        if !(splitName f.name).2.isEmpty then .error .outside
         else
-          -- conversion
-          let v' : Except FErr Val :=
-            match f.conversion with
-            | none => .ok v
-            | some c => if c = 'r' ∨ c = 's' ∨ c = 'a' then .ok .str else .error .unknownConversion
-          match v' with
+          match convert f v with
           | .error e => .error e
           | .ok w =>
             if f.needsExpanding then .error .outside
             else
               match formatValue w f.spec with
               | .error e => .error (.spec e)
-              | .ok () => .ok an'
+              | .ok () => .ok { state := st, fieldNumber := if empty then an.fieldNumber + 1 else an.fieldNumber }
 
 /-- `do_markup`: iterate and render; `fuel` ≥ number of characters + 1 -/
 def formatLoop (a : Args) : Nat → List Char → AutoNumber → Except FErr Unit
